@@ -5,6 +5,13 @@
 // registry counts constructor / destructor runs per id; the value lives in the registry, so a bitwise relocated
 // in-place object (ValueStore::swap) keeps its identity.  Types 6..10 are bool, int, const void*, std::string,
 // std::vector<int> (checked by ASan/LSan only).
+// Types 11..13 are instrumented payloads of sizeof 9, 12, 15 - bigger than the holder's one word, not a multiple of it - and
+// 14..17 plain aggregates of sizeof 12 (three ints), 9 (nine chars), 16 and 8 (controls).  In all of them EVERY byte is
+// significant: besides the id each byte is a non-zero function of (value, position) that every read checks, so an object
+// whose tail did not travel with a swap / assignment / copy, or was overwritten by a neighbour, is noticed (integrity 3 for
+// the instrumented ones, value -888 for the plain ones).  Every ValueStore the harness owns is a separate, exactly-sized heap
+// block (new Po::ValueStore: two words; map entries only ever adopt, i.e. use the heap table), operator='s temporaries live on
+// the instrumented stack - so AddressSanitizer sees any write / read beyond a holder's word.
 #include "common.h"
 #include <map>
 #include <set>
@@ -17,6 +24,7 @@
 #include <utility>
 #include <iterator>
 #include <istream>
+#include <sstream>
 #include <ostream>
 #include <climits>
 #include <cstdarg>
@@ -42,7 +50,7 @@ namespace Po = Potassco::ProgramOptions;
 // ------------------------------------------------------------------------------------------------------------
 struct Info { int ty; ll val; int ctor; int dtor; };
 static std::vector<Info> reg;
-static int integrity = 0;   // 1: dead / foreign object touched or destroyed twice, 2: id space exhausted
+static int integrity = 0;   // 1: dead / foreign object touched or destroyed twice, 2: id space exhausted, 3: bytes of a live object's value changed behind its back
 static size_t regNew(int ty, ll v) {
 	Info i = {ty, v, 1, 0};
 	reg.push_back(i);
@@ -66,6 +74,14 @@ struct B4  { uint32_t id; void fill(ll) {} bool good(ll) const { return true; } 
 struct B8  { uint64_t id; void fill(ll) {} bool good(ll) const { return true; } };
 struct B16 { uint64_t id; uint64_t shadow; void fill(ll v) { shadow = (uint64_t)v * 3 + 1; } bool good(ll v) const { return shadow == (uint64_t)v * 3 + 1; } };
 struct BS  { std::string s; uint32_t id; void fill(ll v) { s = sval(v); } bool good(ll v) const { return s == sval(v); } };
+// every byte of the body is a non-zero function of (value, position)
+static inline uint8_t shb(ll v, size_t k) { return (uint8_t)(((uint64_t)v * 131u + (uint64_t)k * 29u + 7u) % 251u + 1u); }
+template <class ID, size_t N> struct BOdd {
+	ID id; uint8_t b[N];
+	void fill(ll v) { for (size_t k = 0; k != N; ++k) b[k] = shb(v, k); }
+	bool good(ll v) const { for (size_t k = 0; k != N; ++k) { if (b[k] != shb(v, k)) return false; } return true; }
+};
+typedef BOdd<uint8_t, 8> B9; typedef BOdd<uint32_t, 8> B12; typedef BOdd<uint8_t, 14> B15;
 struct BV  { std::vector<int> v; uint32_t id; void fill(ll x) { v.assign(3 + (size_t)(x % 5), (int)x); } bool good(ll x) const { return v.size() == 3 + (size_t)(x % 5) && v[0] == (int)x && v.back() == (int)x; } };
 
 template <int TY, class Body>
@@ -74,15 +90,23 @@ struct Pay : Body {
 	explicit Pay(ll v) { this->id = (decltype(this->id))regNew(TY, v); this->fill(v); }
 	Pay(const Pay& o) : Body() { size_t n = regCopy(TY, o.id); this->id = (decltype(this->id))n; this->fill(reg[n].val); }
 	~Pay() { regDestroy(TY, this->id); }
-	ll   get() const { if (!usable(TY, this->id)) { integrity = 1; return -777; } if (!this->good(reg[this->id].val)) { integrity = 1; } return reg[this->id].val; }
+	ll   get() const { if (!usable(TY, this->id)) { integrity = 1; return -777; } if (!this->good(reg[this->id].val)) { if (integrity == 0) integrity = 3; } return reg[this->id].val; }
 	void set(ll v) { if (!usable(TY, this->id)) { integrity = 1; return; } reg[this->id].val = v; this->fill(v); }
 private:
 	Pay& operator=(const Pay&);
 };
 typedef Pay<0, B1> P1; typedef Pay<1, B4> P4; typedef Pay<2, B8> P8; typedef Pay<3, B16> P16; typedef Pay<4, BS> PS; typedef Pay<5, BV> PV;
+typedef Pay<11, B9> P9; typedef Pay<12, B12> P12; typedef Pay<13, B15> P15;
+// plain aggregates (trivially copyable): value v <-> all bytes
+struct T12 { int a, b, c; };               // the "struct of three ints"
+struct T9  { unsigned char c[9]; };
+struct T16 { int a, b, c, d; };
+struct T8  { int a, b; };
 static_assert(sizeof(void*) == 8, "model: PTR_SIZE = 8");
 static_assert(sizeof(P1) == 1 && sizeof(P4) == 4 && sizeof(P8) == 8 && sizeof(P16) == 16 && sizeof(PS) == 40 && sizeof(PV) == 32, "model: size_of 0..5");
 static_assert(sizeof(bool) == 1 && sizeof(int) == 4 && sizeof(const void*) == 8 && sizeof(std::string) == 32 && sizeof(std::vector<int>) == 24, "model: size_of 6..10");
+static_assert(sizeof(P9) == 9 && sizeof(P12) == 12 && sizeof(P15) == 15 && sizeof(T12) == 12 && sizeof(T9) == 9 && sizeof(T16) == 16 && sizeof(T8) == 8, "model: size_of 11..17");
+static_assert(sizeof(Po::ValueStore) == 2 * sizeof(void*), "a holder is its vtable pointer and ONE word of storage (coq/C20/Fits.v)");
 
 static char pool[1000];
 template <class T> struct TT;
@@ -104,12 +128,31 @@ template <> struct TT<std::string> { enum { code = 9 }; typedef std::string T;
 template <> struct TT<std::vector<int> > { enum { code = 10 }; typedef std::vector<int> T;
 	static T make(ll v) { return T(3 + (size_t)(v % 5), (int)v); } static ll value(const T& x) { return x.empty() ? 0 : x[0]; } static void set(T& x, ll v) { x = make(v); } static ll oid(const T&) { return -1; } };
 
-enum { NTY = 11 };
+template <> struct TT<T12> { enum { code = 14 }; typedef T12 T;
+	static T make(ll v) { T x = {(int)v, (int)(v * 7 + 1), (int)~v}; return x; }
+	static ll value(const T& x) { return x.b == (int)((ll)x.a * 7 + 1) && x.c == ~x.a ? x.a : -888; }
+	static void set(T& x, ll v) { x = make(v); } static ll oid(const T&) { return -1; } };
+template <> struct TT<T9> { enum { code = 15 }; typedef T9 T;
+	static T make(ll v) { T x; x.c[0] = (unsigned char)(v & 0xff); x.c[1] = (unsigned char)((v >> 8) & 0xff); for (size_t k = 2; k != 9; ++k) x.c[k] = shb(v, k); return x; }
+	static ll value(const T& x) { ll v = x.c[0] + 256 * (ll)x.c[1]; for (size_t k = 2; k != 9; ++k) { if (x.c[k] != shb(v, k)) return -888; } return v; }
+	static void set(T& x, ll v) { x = make(v); } static ll oid(const T&) { return -1; } };
+template <> struct TT<T16> { enum { code = 16 }; typedef T16 T;
+	static T make(ll v) { T x = {(int)v, (int)(v * 7 + 1), (int)~v, (int)(v * 13 + 5)}; return x; }
+	static ll value(const T& x) { return x.b == (int)((ll)x.a * 7 + 1) && x.c == ~x.a && x.d == (int)((ll)x.a * 13 + 5) ? x.a : -888; }
+	static void set(T& x, ll v) { x = make(v); } static ll oid(const T&) { return -1; } };
+template <> struct TT<T8> { enum { code = 17 }; typedef T8 T;
+	static T make(ll v) { T x = {(int)v, (int)~v}; return x; }
+	static ll value(const T& x) { return x.b == ~x.a ? x.a : -888; }
+	static void set(T& x, ll v) { x = make(v); } static ll oid(const T&) { return -1; } };
+
+enum { NTY = 18 };
 template <class F> static void dispatch(ll ty, F f) {
 	switch (ty) {
 		case 0: f((P1*)0); break; case 1: f((P4*)0); break; case 2: f((P8*)0); break; case 3: f((P16*)0); break;
 		case 4: f((PS*)0); break; case 5: f((PV*)0); break; case 6: f((bool*)0); break; case 7: f((int*)0); break;
 		case 8: f((const void**)0); break; case 9: f((std::string*)0); break; case 10: f((std::vector<int>*)0); break;
+		case 11: f((P9*)0); break; case 12: f((P12*)0); break; case 13: f((P15*)0); break;
+		case 14: f((T12*)0); break; case 15: f((T9*)0); break; case 16: f((T16*)0); break; case 17: f((T8*)0); break;
 		default: break;
 	}
 }
@@ -394,6 +437,9 @@ struct A {
 // ------------------------------------------------------------------------------------------------------------
 // part B
 // ------------------------------------------------------------------------------------------------------------
+// the integer ranges tools/consts/C20.py assigns to the declared type of RefCountable::refCount_ (LP64, two's complement)
+static_assert(sizeof(short) == 2 && sizeof(int) == 4 && sizeof(long) == 8 && sizeof(long long) == 8 && sizeof(void*) == 8 && CHAR_BIT == 8, "tools/consts/C20.py INT_TYPES assumes LP64");
+static_assert(sizeof(Po::SharedOptPtr) == sizeof(void*), "a holder is one pointer (coq/C20/Refcount.v: refcount_range_sufficient)");
 static std::vector<int> odead;
 struct TrackedValue : Po::Value {
 	explicit TrackedValue(size_t k) : Po::Value(0), id(k) {}
@@ -422,6 +468,7 @@ struct B {
 	std::vector<Po::Option*> raw;
 	std::vector<Po::SharedOptPtr*> p;
 	std::vector<void*> cont;
+	std::vector<Po::SharedOptPtr> pool;   // the client's own handle copies (model: container index C), newest at the back
 	Po::OptionContext dummy;
 	ll S, C;
 	Obs& o;
@@ -530,6 +577,53 @@ struct B {
 			box->base.add(sp, "v");
 		}
 	}
+	// Model op RPushN(c, i, k) on a ParsedValues container = "the container holds k more handles of option *p[i]": one parse of a generated
+	// config text / command line in which the option occurs k times (the way a composing option is given), result kept; or k direct adds.
+	void pushParsedN(PVBox* box, const Po::SharedOptPtr& sp, ll k, unsigned sel) {
+		if (k == 0) return;
+		if (sel % 3 == 0) { for (ll n = 0; n != k; ++n) box->base.add(sp, "v"); return; }
+		const Po::OptionContext* over = 0;
+		for (ll c = 2; c < C && !over; c += 3) {
+			const Po::OptionContext* x = static_cast<Po::OptionContext*>(cont[(size_t)c]);
+			for (Po::OptionContext::option_iterator it = x->begin(); it != x->end(); ++it) { if (it->get() == sp.get()) over = x; }
+		}
+		std::unique_ptr<Po::OptionContext> tmp;
+		if (!over) {
+			tmp.reset(new Po::OptionContext("tmp"));
+			Po::OptionGroup g("grp");
+			g.addOption(sp);
+			tmp->add(g);
+			over = tmp.get();
+		}
+		const std::string nm = sp->name();
+		Po::ParsedValues* res = 0;
+		try {
+			if (sel % 3 == 1) {
+				std::string cfg;
+				for (ll n = 0; n != k; ++n) { cfg += nm; cfg += " = 1\n"; }
+				std::istringstream in(cfg);
+				res = new Po::ParsedValues(Po::parseCfgFile(in, *over, false));
+			}
+			else {
+				const std::string tok = "--" + nm + "=v";
+				std::vector<const char*> args((size_t)k, tok.c_str());
+				args.push_back(0);
+				res = new Po::ParsedValues(Po::parseCommandArray(args.data(), (unsigned)k, *over, false));
+			}
+		}
+		catch (const std::exception&) { res = 0; }
+		bool good = res && std::distance(res->begin(), res->end()) == k;
+		if (good) { for (Po::ParsedValues::iterator it = res->begin(); it != res->end(); ++it) good = good && it->first.get() == sp.get(); }
+		if (good) {
+			res->ctx = &dummy;
+			box->kept.push_back(res);
+		}
+		else {
+			integrity = 1;                // the parser did not return exactly k entries for the option
+			delete res;
+			for (ll n = 0; n != k; ++n) box->base.add(sp, "v");
+		}
+	}
 	ll idOf(const Po::Option* x) const { for (size_t k = 0; k != raw.size(); ++k) { if (raw[k] == x) return (ll)k; } return -2; }
 	void dump(bool gone) {
 		for (size_t k = 0; k != raw.size(); ++k) {
@@ -537,13 +631,24 @@ struct B {
 			o.add(alive ? 1 : 0); o.add(alive ? raw[k]->refCount() : -1); o.add(odead[k]);
 		}
 		for (ll i = 0; i != S; ++i) {
-			if (gone) { o.add(-1); continue; }
+			if (gone) { o.add(-1); o.add(0); continue; }
 			const Po::Option* x = p[(size_t)i]->get();
-			if (x && p[(size_t)i]->count() != x->refCount()) integrity = 1;
-			if (!x && (p[(size_t)i]->count() != 0 || !p[(size_t)i]->unique())) integrity = 1;
-			o.add(x ? idOf(x) : -1);
+			if (!x) {
+				if (p[(size_t)i]->count() != 0 || !p[(size_t)i]->unique()) integrity = 1;
+				o.add(-1); o.add(0);
+				continue;
+			}
+			ll id = idOf(x);
+			o.add(id);
+			if (id >= 0 && odead[(size_t)id] == 0) {
+				// what the handle reports: count() in full, consistent with refCount() / unique()
+				if (p[(size_t)i]->count() != x->refCount() || p[(size_t)i]->unique() != (x->refCount() == 1)) integrity = 1;
+				o.add(p[(size_t)i]->count());
+			}
+			else o.add(-1);                 // the option is gone although this handle still refers to it: not dereferenced
 		}
 		for (ll c = 0; c != C; ++c) o.add(gone ? 0 : contSize(c));
+		o.add(gone ? 0 : (ll)pool.size());
 		o.add(integrity);
 	}
 	bool run(Case& c) {
@@ -606,6 +711,35 @@ struct B {
 				ll k = c.next();
 				if (okc(k)) { dropCont(k); cont[(size_t)k] = makeCont(k); }
 			}
+			else if (op == 8) {
+				// k further holders of *p[i] at once: real handle copies in the pool (k == C) or in container k
+				if (c.v.size() - c.p < 3) break;
+				ll k = c.next(), i = c.next(), n = c.next();
+				if ((okc(k) || k == C) && okp(i) && n >= 0 && n <= 100000 && p[(size_t)i]->get() != 0) {
+					const Po::SharedOptPtr& sp = *p[(size_t)i];
+					unsigned sel = (unsigned)(nops * 5 + i * 3 + k + n + (ll)raw.size());
+					if (k == C) {
+						if (sel & 1) pool.reserve(pool.size() + (size_t)n);      // with / without reallocation copies
+						for (ll x = 0; x != n; ++x) pool.push_back(sp);
+					}
+					else switch (k % 3) {
+						case 0: for (ll x = 0; x != n; ++x) static_cast<Po::OptionGroup*>(cont[(size_t)k])->addOption(sp); break;
+						case 1: pushParsedN(static_cast<PVBox*>(cont[(size_t)k]), sp, n, sel); break;
+						default:
+							for (ll x = 0; x != n; ++x) {
+								Po::OptionGroup g("grp");
+								g.addOption(sp);
+								try { static_cast<Po::OptionContext*>(cont[(size_t)k])->add(g); } catch (const Po::DuplicateOption&) {}
+							}
+					}
+				}
+			}
+			else if (op == 9) {
+				// the newest n handle copies of the pool are destroyed one by one
+				if (c.v.size() - c.p < 1) break;
+				ll n = c.next();
+				if (n >= 0 && n <= 100000) { for (ll x = 0; x != n && !pool.empty(); ++x) pool.pop_back(); }
+			}
 			else break;
 			dump(false);
 		}
@@ -615,6 +749,7 @@ struct B {
 		for (size_t i = 0; i != p.size(); ++i) delete p[i];
 		for (size_t k = 0; k != cont.size(); ++k) dropCont((ll)k);
 		p.clear(); cont.clear();
+		pool.clear();
 		dump(true);
 	}
 	~B() { for (size_t i = 0; i != p.size(); ++i) delete p[i]; for (size_t k = 0; k != cont.size(); ++k) dropCont((ll)k); }
